@@ -49,6 +49,7 @@ class Glob:
         self.CONN_STATE = z3.Int("CONN_STATE")
         self.AUTHENTICATED = z3.IntVal(enum_id("ConnectionState::Authenticated"))
         self.IN_TRANSACTION = z3.Bool("IN_TRANSACTION")
+        self.input_calls = []     # regexes of callees whose integer results are INPUTS (like str::parse): e.g. length fields read from a file
         self.min_len = {}         # source name of a slice parameter -> minimal length (documented precondition)
         self.inline = []          # regexes of callee names that are evaluated by inlining their MIR
         self.inline_depth = 0
@@ -499,7 +500,7 @@ class Enc:
                     if v is not None:
                         self.extra.extend(e.extra)
                         return v
-        mm = re.search(r"(?:std::cmp::|core::cmp::|<[iu](?:8|16|32|64|size) as Ord>::)(min|max)(?:::<[iu](?:8|16|32|64|size)>)?$", callee)
+        mm = re.search(r"(?:std::cmp::|core::cmp::|<[iu](?:8|16|32|64|size) as (?:std::cmp::|core::cmp::)?Ord>::)(min|max)(?:::<[iu](?:8|16|32|64|size)>)?$", callee)
         if mm and len(a) == 2 and a[0] is not None and a[1] is not None and z3.is_int(a[0]) and z3.is_int(a[1]):
             return z3.If(a[0] <= a[1], a[0], a[1]) if mm.group(1) == "min" else z3.If(a[0] >= a[1], a[0], a[1])
         mm = re.search(r"^(?:core::num::<impl )?([iu](?:8|16|32|64|size))>?::(saturating_sub|saturating_add|wrapping_neg|unsigned_abs|abs)$", callee)
@@ -764,8 +765,15 @@ class Enc:
                     if mm and mm.group(1) in self.mut_ref:
                         st.pop("len:" + self.mut_ref[mm.group(1)], None)
                 if dest and re.match(r"^_\d+$", dest):
-                    if re.search(r"::parse::<|::from_str_radix$|as FromStr>::from_str$", t["callee"]):
+                    if re.search(r"::parse::<|::from_str_radix$|as FromStr>::from_str$", t["callee"]) or any(re.search(x, t["callee"]) for x in self.glob.input_calls):
                         self.origin[dest] = "parsed"
+                    elif re.search(r"as Try>::branch$|(Result|Option)::<.*>::(unwrap|expect|unwrap_or|unwrap_or_default|ok|ok_or|map_err)(::<.*>)?$", t["callee"]) and t["args"]:
+                        # the payload of a Result/Option keeps its provenance through `?`, unwrap, map_err ...
+                        ma_ = re.match(r"^(?:copy |move )?(_\d+)$", t["args"][0].strip())
+                        if ma_ and ma_.group(1) in self.origin:
+                            self.origin[dest] = self.origin[ma_.group(1)]
+                        else:
+                            self.origin.pop(dest, None)
                     else:
                         self.origin.pop(dest, None)
             # edges
